@@ -382,6 +382,9 @@ def r5_values(ctx):
 
 def r6_operands_intact(ctx):
     _C07.r1_no_operand_mutation(ctx)
+    # `q *= r` has to be `q = q * r` (cancelled units folded by Quantity.__init__), `exp += e` a new Fraction: an
+    # in-place operator on a value class bypasses that and writes into exponents other quantities share (C07.R4)
+    _C07.r4_value_objects(ctx)
 
 
 RULES = [
